@@ -36,6 +36,21 @@ def entries(fx, config):
     return out, missing
 
 
+def _const_nonzero_divisor(b, t):
+    c = t.get('cond', {})
+    if c.get('k') not in ('move', 'copy') or c['pl']['p']:
+        return False
+    for st in reversed(b['stmts']):
+        if st['lhs']['l'] == c['pl']['l'] and not st['lhs']['p']:
+            rv = st['rv']
+            if rv['k'] == 'bin' and rv['op'] == 'Eq' and rv['a']['k'] == 'const' and rv['b']['k'] == 'const':
+                m = re.match(r'^(\d+)_[ui](\d+|size)$', rv['a']['v'])
+                z = re.match(r'^0_[ui](\d+|size)$', rv['b']['v'])
+                return bool(m and z and int(m.group(1)) != 0)
+            return False
+    return False
+
+
 def sites_of(fn):
     """[(bb, kind, detail, line, macro)] panic-capable sites of one function (non-cleanup blocks)."""
     out = []
@@ -56,6 +71,8 @@ def sites_of(fn):
         elif t['k'] == 'assert':
             kind = t['msg'].split('(')[0].split(' ')[0]
             if kind in ASSERT_KINDS:
+                if kind in ('DivisionByZero', 'RemainderByZero') and _const_nonzero_divisor(b, t):
+                    continue   # `x / c`, `x % c` with a non-zero literal c: the assertion compares two constants
                 det = kind
                 if kind == 'Overflow':
                     m = re.match(r'Overflow\((\w+)', t['msg'])
